@@ -80,30 +80,34 @@ theorem guardDrop_nonKey (m : Mode) (items : List GuardItem) (pk : Bool) :
         · exact .abort
         · exact ih _
 
-theorem debugLeaf_nonKey (x : LockId) (m : Mode) : OpsIn nonKeyOp (debugLeaf x m) := by
+theorem debugLeaf_nonKey (x : LockId) (m : Mode) (b : Bool) : OpsIn nonKeyOp (debugLeaf x m b) := by
   unfold debugLeaf
   refine .op _ _ trivial (fun r => ?_)
   cases r
-  · refine .op _ _ trivial (fun _ => .op _ _ trivial (fun r' => ?_))
-    cases r' <;> first | exact .done _ | exact .unwind _
+  · refine .op _ _ trivial (fun _ => ?_)
+    split
+    · refine .op _ _ (by show (_ : Nat) ≠ _; decide) (fun _ => .op _ _ trivial (fun r' => ?_))
+      cases r' <;> first | exact .abort | exact .unwind _
+    · refine .op _ _ trivial (fun r' => ?_)
+      cases r' <;> first | exact .done _ | exact .unwind _
   · exact .done _
   · exact .unwind _
 
 mutual
-theorem debugFmt_nonKey : ∀ S : Shape, OpsIn nonKeyOp (debugFmt S)
-  | .mutex x => by simpa [debugFmt] using debugLeaf_nonKey x .excl
-  | .rwlock x => by simpa [debugFmt] using debugLeaf_nonKey x .shared
-  | .seq ss => by simpa [debugFmt] using debugFmtL_nonKey ss
-  | .poisonable _ s => by simpa [debugFmt] using debugFmt_nonKey s
+theorem debugFmt_nonKey (b : Option LockId) : ∀ S : Shape, OpsIn nonKeyOp (debugFmt b S)
+  | .mutex x => by simpa [debugFmt] using debugLeaf_nonKey x .excl _
+  | .rwlock x => by simpa [debugFmt] using debugLeaf_nonKey x .shared _
+  | .seq ss => by simpa [debugFmt] using debugFmtL_nonKey b ss
+  | .poisonable _ s => by simpa [debugFmt] using debugFmt_nonKey b s
   | .boxed _ => by simp only [debugFmt]; exact .done _
-  | .refc s => by simpa [debugFmt] using debugFmt_nonKey s
-  | .retry s => by simpa [debugFmt] using debugFmt_nonKey s
-  | .owned _ s => by simpa [debugFmt] using debugFmt_nonKey s
-theorem debugFmtL_nonKey : ∀ ss : List Shape, OpsIn nonKeyOp (debugFmtL ss)
+  | .refc s => by simpa [debugFmt] using debugFmt_nonKey b s
+  | .retry s => by simpa [debugFmt] using debugFmt_nonKey b s
+  | .owned _ s => by simpa [debugFmt] using debugFmt_nonKey b s
+theorem debugFmtL_nonKey (b : Option LockId) : ∀ ss : List Shape, OpsIn nonKeyOp (debugFmtL b ss)
   | [] => by simp only [debugFmtL]; exact .done _
   | s :: ss => by
     simp only [debugFmtL]
-    exact (debugFmt_nonKey s).bind (fun _ => debugFmtL_nonKey ss)
+    exact (debugFmt_nonKey b s).bind (fun _ => debugFmtL_nonKey b ss)
 end
 
 theorem lock_nonKey (W : World) (S : Shape) :
@@ -165,11 +169,11 @@ theorem bodySteps_key (C : Ctx) (S : Shape) (body : List BodyStep) (g : KG) (hg 
     cases b with
     | write pos v => exact kwp_ign _ _ _ _ _ trivial (fun _ => ih)
     | read pos => exact kwp_ign _ _ _ _ _ trivial (fun _ => ih)
-    | dbg c =>
+    | dbg c bomb =>
       simp only [bodySteps]
       refine kwp_ign _ _ _ _ _ (by nkm) (fun _ => ?_)
       rw [wp_bindX]
-      apply key_frame (debugFmt_nonKey _)
+      apply key_frame (debugFmt_nonKey _ _)
       · intro _; exact kwp_ign _ _ _ _ _ (by nkm) (fun _ => ih)
       · intro _; exact kwp_ign _ _ _ _ _ (by nkm) (fun _ => hE)
     | getKey =>
@@ -467,11 +471,11 @@ theorem stmt_key (C : Ctx) (st : Stmt) (u : UserSt) (g : KG) (Q : UserSt → KG 
       obtain ⟨hk1, hg⟩ := inCall_of_inv hi hk
       refine kwp_keyForget _ _ _ _ hg.1 (fun _ => kwp_out _ _ _ Q (by decide) (hQ _ _ ?_))
       exact keyInv_forgot (by simp [hk1]) hg
-  | dbg c =>
+  | dbg c bomb =>
     simp only [stmt]
     refine kwp_ign _ _ _ _ _ (by nkm) (fun _ => ?_)
     rw [wp_bindX]
-    apply key_frame (debugFmt_nonKey _)
+    apply key_frame (debugFmt_nonKey _ _)
     · intro _; exact kwp_ign _ _ _ _ _ (by nkm) (fun _ => kwp_out _ _ _ Q (by decide) (hQ _ _ hi))
     · intro _; exact kwp_ign _ _ _ _ _ (by nkm) (fun _ => kwp_out _ _ _ Q (by decide) (hQ _ _ hi))
   | isPoisoned c =>
